@@ -9,7 +9,7 @@ every recorded line is judged by spec/Trace_Comments.tla.
   --mode tokenize  cases: the same texts; --blank: comment-free texts computed by the model
                    writes the token windows for Layout.tla (--tokens), the parse of each original
                    (--origdir) and nothing to judge
-  --mode layout    cases: {"cid","wid","ch":[[boundary,filler]..],"ik","ikind"} (schedules chosen by TLC)
+  --mode layout    cases: {"cid","wid","scheds":[{"id","ch":[[boundary,filler]..],"ik","ikind"}]} (schedules chosen by TLC)
                    re-lays the window out, parses, records equal / different / exception;
                    with ik > 0 injects a syntax error at token ik and records the reported position
 
@@ -255,7 +255,9 @@ def mode_tokenize(a):
             n = len(toks)
             W = a.window
             offs = [0]
-            if n > W:
+            if n > W and c.get('bfs'):            # tile: every boundary lies in exactly one window
+                offs = list(range(0, n - 1, W - 1))
+            elif n > W:
                 nwin = min(a.windows, max(1, n // W))
                 offs = sorted(set([0, n - W] + [rnd.randrange(0, n - W + 1) for _ in range(max(0, nwin - 2))]))
             for off in offs:
@@ -264,8 +266,8 @@ def mode_tokenize(a):
                 out.write(json.dumps({
                     'wid': '%s@%d' % (tid, off), 'tid': tid, 'off': off,
                     'toks': toks[off:hi], 'fill0': fill[off:hi - 1],
-                    'bfs': bool(c.get('bfs')) and whole,
-                    'inj': whole and n <= a.injmax and o0['st'] == 'ok',
+                    'bfs': bool(c.get('bfs')),
+                    'inj': len(text) <= a.injmax and o0['st'] == 'ok',
                     'ntok': n, 'parse0': o0['st']}) + '\n')
 
 
@@ -302,36 +304,35 @@ def mode_layout(a):
                 cache[tid] = pickle.load(f)
         return cache[tid]
 
-    cases = sorted(read_cases(a.cases, a.shard), key=lambda c: wins[c['wid']]['tid'])
     with open(a.out, 'w') as out:
-        for c in cases:
+        for c in read_cases(a.cases, a.shard):
             w = wins[c['wid']]
             tid, off = w['tid'], w['off']
             text = texts[tid]
             og = orig(tid)
             items = og['items']
             toks = list(w['toks'])
-            fill = list(w['fill0'])
-            if c.get('allsp'):
-                fill = [' '] * len(fill)
-            for b, fi in c['ch']:
-                fill[b - 1] = FILLERS[fi - 1]
             lo, hi = items[off][1], items[off + len(toks) - 1][2]
             lead, trail = text[:lo], text[hi:]
-            if c['ik'] == 0:
-                wnew = render(toks, fill)
-                o1, d1 = parse_outcome(asn1tools, lead + wnew + trail)
-                rec = {'cid': c['cid'], 'k': 'layout', 'wid': c['wid'], 'toks': toks, 'worig': text[lo:hi], 'wnew': wnew,
-                       'o0': og['o0'], 'o1': o1, 'same': bool(og['o0']['st'] == 'ok' and o1['st'] == 'ok' and d1 == og['d0']),
-                       'ch': c['ch']}
-            else:
+            line = {'cid': c['cid'], 'k': 'layout', 'wid': c['wid'], 'toks': toks, 'worig': text[lo:hi], 'o0': og['o0'],
+                    'cases': []}
+            for sc in c['scheds']:
+                fill = list(w['fill0'])
+                for b, fi in sc['ch']:
+                    fill[b - 1] = FILLERS[fi - 1]
+                if sc['ik'] == 0:
+                    wnew = render(toks, fill)
+                    o1, d1 = parse_outcome(asn1tools, lead + wnew + trail)
+                    line['cases'].append({'id': sc['id'], 'ch': sc['ch'], 'wnew': wnew, 'o1': o1,
+                                          'same': bool(og['o0']['st'] == 'ok' and o1['st'] == 'ok' and d1 == og['d0'])})
+                    continue
                 # syntax error at token ik: L0 = the original with its comments blanked by the model,
                 # L1 = the layout chosen by TLC; both with the same erroneous token list
                 blank = og['blank']
                 fb = [blank[items[j][2]:items[j + 1][1]] for j in range(off, off + len(toks) - 1)]
-                k = c['ik'] - 1
+                k = sc['ik'] - 1
                 t2, f0, f1 = list(toks), list(fb), list(fill)
-                if c['ikind'] == 'bad':
+                if sc['ikind'] == 'bad':
                     t2[k] = '?!'
                 elif 0 < k < len(toks) - 1:
                     del t2[k]
@@ -344,10 +345,13 @@ def mode_layout(a):
                 t1 = lead + render(t2, f1) + trail
                 l0, _ = parse_outcome(asn1tools, t0)
                 l1, _ = parse_outcome(asn1tools, t1)
-                rec = {'cid': c['cid'], 'k': 'errline', 'wid': c['wid'], 'toks': t2, 'ik': c['ik'], 'ikind': c['ikind'],
-                       'lead0': lead0, 'f0': f0, 'trail0': trail0, 'lead1': lead, 'f1': f1, 'trail1': trail,
-                       't0': t0, 't1': t1, 'l0': l0, 'l1': l1, 'ch': c['ch']}
-            out.write(json.dumps(rec) + '\n')
+                out.write(json.dumps({
+                    'cid': '%s-e%s' % (c['cid'], sc['id']), 'k': 'errline', 'wid': c['wid'], 'toks': t2, 'ik': sc['ik'],
+                    'ikind': sc['ikind'], 'lead0': lead0, 'f0': f0, 'trail0': trail0, 'lead1': lead, 'f1': f1, 'trail1': trail,
+                    't0': t0, 't1': t1, 'l0': l0, 'l1': l1, 'ch': sc['ch'],
+                    'attail': off + len(toks) == len(items)}) + '\n')
+            if line['cases']:
+                out.write(json.dumps(line) + '\n')
             out.flush()
 
 
@@ -364,7 +368,7 @@ def main():
     ap.add_argument('--seed', type=int, default=1)
     ap.add_argument('--window', type=int, default=120)
     ap.add_argument('--windows', type=int, default=3)
-    ap.add_argument('--injmax', type=int, default=400)
+    ap.add_argument('--injmax', type=int, default=12000)
     a = ap.parse_args()
     sys.setrecursionlimit(10000)
     {'masks': mode_masks, 'texts': mode_texts, 'tokenize': mode_tokenize, 'layout': mode_layout}[a.mode](a)
